@@ -12,7 +12,9 @@ from vf.common import CEX, ERROR, HOLDS, INCONCLUSIVE, PY, VERIF, load_known, ma
 
 def do_replay(path):
     env = dict(os.environ)
-    env["PYTHONPATH"] = VERIF
+    repo = os.environ.get("VERIF_REPO")
+    # replays import the same py7zr tree the obligations were generated from
+    env["PYTHONPATH"] = (repo + ":" + VERIF) if repo and repo != "/repo" else VERIF
     p = subprocess.run([PY, "-m", "vf.replay", path], capture_output=True, text=True, env=env, cwd=VERIF, timeout=900)
     out = (p.stdout + p.stderr).strip()
     return p.returncode == 0, out[-1500:]
